@@ -299,6 +299,10 @@ class ModelFile:
         """Reserve the given ID for an element to be inserted later."""
         self.__idcache[new_id] = None
 
+    def idcache_is_reserved(self, element_id: str) -> bool:
+        """Check if the ID is reserved, but not used by an element yet."""
+        return self.__idcache.get(element_id, self) is None
+
     def update_namespaces(self, viewpoints: cabc.Mapping[str, str]) -> None:
         """Update the current namespace map.
 
@@ -753,9 +757,13 @@ class MelodyLoader:
             cleanup_after_failure()
             raise
 
-        if self[new_uuid] is None:
-            cleanup_after_failure()
-            raise RuntimeError("New UUID was requested but never used")
+        if tree.idcache_is_reserved(new_uuid):
+            if IDTYPES_PER_FILETYPE[tree.filename.suffix]:
+                cleanup_after_failure()
+                raise RuntimeError("New UUID was requested but never used")
+            # IDs are not indexed in this type of file: only drop the
+            # reservation
+            tree.idcache_remove(new_uuid)
 
     def xpath(
         self,
